@@ -781,4 +781,948 @@ theorem pushRaw_drained_notified (e : Sqe) : ∀ (script : List Enter) (r : Ring
       · exact hDn c hc id hud hmore
 
 
+
+/-! ### draining a list of finished results -/
+
+theorem notify_slot_pending (ks : Keys) (id : Id) (r : Res) (x : Id) (w : Option WakerId)
+    (h : (ks.notify id r).slot x = .pending w) : ks.slot x = .pending w := by
+  by_cases hx : x = id
+  · subst hx
+    cases hs : ks.slot x with
+    | free => simp [Keys.notify, Keys.storeResult, hs, Slot.store] at h
+    | ready r' => simp [Keys.notify, Keys.storeResult, hs, Slot.store] at h
+    | pending w' =>
+      have := (notify_pending ks x r w' hs).1
+      rw [this] at h; simp at h
+  · rw [(notify_frame ks id r x hx).1] at h; exact h
+
+theorem notify_slot_free (ks : Keys) (id : Id) (r : Res) (x : Id)
+    (h : (ks.notify id r).slot x = .free) : ks.slot x = .free := by
+  by_cases hx : x = id
+  · subst hx
+    cases hs : ks.slot x with
+    | free => rfl
+    | ready r' => simp [Keys.notify, Keys.storeResult, hs, Slot.store] at h
+    | pending w' =>
+      have := (notify_pending ks x r w' hs).1
+      rw [this] at h; simp at h
+  · rw [(notify_frame ks id r x hx).1] at h; exact h
+
+theorem notify_src (ks : Keys) (id : Id) (r : Res) : (ks.notify id r).src = ks.src := by
+  unfold Keys.notify Keys.storeResult
+  cases h : ((ks.slot id).store r).2 <;> simp [Keys.wake]
+
+/-- draining a whole channel -/
+def notifyAll (ks : Keys) (chan : List (Id × Res)) : Keys := chan.foldl (fun ks e => ks.notify e.1 e.2) ks
+
+/-- the first `a` of the waiting results are notified, the rest keeps waiting -/
+theorem kinv_notifyAll_prefix {queued : Id → Prop} {pool : List Id} {b : List (Id × Res)} :
+    ∀ (a : List (Id × Res)) (ks : Keys), KInv ks (a ++ b) queued pool → KInv (notifyAll ks a) b queued pool := by
+  intro a
+  induction a with
+  | nil => intro ks h; exact h
+  | cons e rest ih =>
+    intro ks h
+    obtain ⟨id, r⟩ := e
+    exact ih _ (KInv.notifyHead (by simpa using h))
+
+theorem kinv_notifyAll {queued : Id → Prop} {pool : List Id} (chan : List (Id × Res)) (ks : Keys)
+    (h : KInv ks (chan ++ []) queued pool) : KInv (notifyAll ks chan) [] queued pool :=
+  kinv_notifyAll_prefix chan ks h
+
+theorem notifyAll_slot_pending : ∀ (chan : List (Id × Res)) (ks : Keys) (x : Id) (w : Option WakerId),
+    (notifyAll ks chan).slot x = .pending w → ks.slot x = .pending w := by
+  intro chan
+  induction chan with
+  | nil => intro ks x w h; exact h
+  | cons e rest ih =>
+    intro ks x w h
+    exact notify_slot_pending ks e.1 e.2 x w (ih _ x w h)
+
+theorem notifyAll_src : ∀ (chan : List (Id × Res)) (ks : Keys), (notifyAll ks chan).src = ks.src := by
+  intro chan
+  induction chan with
+  | nil => intro ks; rfl
+  | cons e rest ih => intro ks; unfold notifyAll; simp only [List.foldl_cons]; exact (ih _).trans (notify_src _ _ _)
+
+/-! ### io_uring: the whole-run invariant under the kernel contract -/
+
+/-- operations staged in the submission queue -/
+def opsOf (sq : List Sqe) : List Id := sq.filterMap fun | .op id => some id | _ => none
+
+/-- final completions of keys waiting in the completion queue -/
+def cqFinals (cq : List Cqe) : List (Id × Res) :=
+  cq.filterMap fun c => match c.ud with
+    | .key id => if c.more then none else some (id, c.res)
+    | _ => none
+
+/-- the driver / the kernel still owes `id` a final completion -/
+def Ring.owed (r : Ring) (id : Id) : Prop := id ∈ r.kern ∨ id ∈ opsOf r.sq
+
+structure RInv (r : Ring) : Prop where
+  k : KInv r.keys (cqFinals r.cq ++ r.chan) r.owed r.pool
+  nod : (r.kern ++ opsOf r.sq).Nodup
+  /-- a CQE in the queue names an operation the kernel still owns or whose final CQE is queued too -/
+  cqLive : ∀ c ∈ r.cq, ∀ id, c.ud = .key id → r.owed id ∨ id ∈ (cqFinals r.cq).map (·.1)
+
+/-- The kernel contract for one `io_uring_enter` (also used for completions posted asynchronously, with
+    `taken = 0`): it consumes a prefix of the staged SQEs; every CQE it posts for a key echoes the
+    user_data of an operation it owns (consumed, final CQE not yet posted); at most one final CQE per key. -/
+structure EnterOk (r : Ring) (e : Enter) : Prop where
+  owned : ∀ c ∈ e.posted, ∀ id, c.ud = .key id → id ∈ r.kern ++ opsOf (r.sq.take e.taken)
+  oneFinal : ((cqFinals e.posted).map (·.1)).Nodup
+
+theorem opsOf_append (a b : List Sqe) : opsOf (a ++ b) = opsOf a ++ opsOf b := by
+  simp [opsOf, List.filterMap_append]
+
+theorem cqFinals_append (a b : List Cqe) : cqFinals (a ++ b) = cqFinals a ++ cqFinals b := by
+  simp [cqFinals, List.filterMap_append]
+
+theorem cqFinals_cons_final (id : Id) (res : Res) (rest : List Cqe) :
+    cqFinals (⟨.key id, res, false⟩ :: rest) = (id, res) :: cqFinals rest := by
+  simp [cqFinals]
+
+theorem append_comm_of_length_le_one {α : Type} (a b : List α) (h : (a ++ b).length ≤ 1) : a ++ b = b ++ a := by
+  cases a with
+  | nil => simp
+  | cons x a' =>
+    cases b with
+    | nil => simp
+    | cons y b' => simp at h
+
+/-- reordering the not-yet-notified results (they belong to pairwise different operations) -/
+theorem KInv.chanSwap {ks : Keys} {a b c : List (Id × Res)} {queued : Id → Prop} {pool : List Id}
+    (h : KInv ks (a ++ b ++ c) queued pool) : KInv ks (a ++ c ++ b) queued pool := by
+  refine ⟨h.srcLen, h.qFresh, h.poolFresh, h.poolNodup, ?_, h.slotRel, h.noUaf, h.wokenLe, h.wakeReady⟩
+  intro id
+  have hl := h.link id
+  have hlen := h.srcLen id
+  rw [chanRes_append, chanRes_append] at hl ⊢
+  have hbc : (chanRes b id ++ chanRes c id).length ≤ 1 := by
+    rw [← hl] at hlen; simp at hlen ⊢; omega
+  have hswap := append_comm_of_length_le_one _ _ hbc
+  rw [List.append_assoc, ← hswap, ← List.append_assoc]
+  simpa [List.append_assoc] using hl
+
+theorem KInv.congrQueued {ks : Keys} {chan : List (Id × Res)} {queued queued' : Id → Prop} {pool : List Id}
+    (h : KInv ks chan queued pool) (hq : ∀ id, queued' id ↔ queued id) : KInv ks chan queued' pool := by
+  have : queued' = queued := by funext id; exact propext (hq id)
+  rw [this]; exact h
+
+theorem chanRes_ne_nil_of_mem {chan : List (Id × Res)} {id : Id} {r : Res} (h : (id, r) ∈ chan) :
+    chanRes chan id ≠ [] := by
+  intro hn
+  have : r ∈ chanRes chan id := by
+    unfold chanRes
+    exact List.mem_map.2 ⟨(id, r), List.mem_filter.2 ⟨h, by simp⟩, rfl⟩
+  rw [hn] at this; cases this
+
+/-- an entry anywhere among the not-yet-notified results belongs to a pending operation -/
+theorem KInv.pending_of_mem {ks : Keys} {chan : List (Id × Res)} {queued : Id → Prop} {pool : List Id}
+    (h : KInv ks chan queued pool) {id : Id} {r : Res} (hm : (id, r) ∈ chan) : ∃ w, ks.slot id = .pending w := by
+  have hne := chanRes_ne_nil_of_mem hm
+  have hl := h.link id
+  have hlen := h.srcLen id
+  have hfin : ks.fin id = [] := by
+    cases hf : ks.fin id with
+    | nil => rfl
+    | cons a l =>
+      rw [hf] at hl
+      cases hc : chanRes chan id with
+      | nil => exact (hne hc).elim
+      | cons b l' => rw [hc] at hl; rw [← hl] at hlen; simp at hlen
+  have hsrc : ks.src id ≠ [] := by
+    rw [← hl, hfin]; simpa using hne
+  have hr := h.slotRel id
+  unfold SlotRel at hr
+  cases hsl : ks.slot id with
+  | free =>
+    rw [hsl] at hr
+    rcases hr with ⟨hs, _⟩ | ⟨hne', _⟩
+    · exact (hsrc hs).elim
+    · exact (hne' hfin).elim
+  | pending w => exact ⟨w, rfl⟩
+  | ready r' => rw [hsl] at hr; rw [hfin] at hr; simp at hr
+
+/-- a result waiting to be notified belongs to an operation that is not owed anything else -/
+theorem KInv.not_queued_of_mem {ks : Keys} {chan : List (Id × Res)} {queued : Id → Prop} {pool : List Id}
+    (h : KInv ks chan queued pool) {id : Id} {r : Res} (hm : (id, r) ∈ chan) : ¬ queued id := by
+  intro hq
+  have hs := (h.qFresh id hq).1
+  have := (h.fin_of_src_nil hs).2
+  exact chanRes_ne_nil_of_mem hm this
+
+/-- the kernel posts the final completions `finals` of operations it owns (`K`) -/
+theorem kinv_post_finals {pool : List Id} {S : List Id} : ∀ (finals : List (Id × Res)) (ks : Keys) (K : List Id)
+    (chan : List (Id × Res)),
+    KInv ks chan (fun id => id ∈ K ∨ id ∈ S) pool → (K ++ S).Nodup → (∀ p ∈ finals, p.1 ∈ K) →
+    (finals.map (·.1)).Nodup →
+    KInv (finals.foldl (fun ks p => ks.produce p.1 p.2) ks) (chan ++ finals)
+      (fun id => id ∈ K.filter (fun x => !(finals.map (·.1)).contains x) ∨ id ∈ S) pool := by
+  intro finals
+  induction finals with
+  | nil =>
+    intro ks K chan h _ _ _
+    simp only [List.foldl_nil, List.append_nil, List.map_nil]
+    refine h.congrQueued ?_
+    intro id; simp
+  | cons p rest ih =>
+    intro ks K chan h hnd hmem hids
+    obtain ⟨id, res⟩ := p
+    simp only [List.foldl_cons]
+    have hidK : id ∈ K := hmem (id, res) List.mem_cons_self
+    rw [List.map_cons] at hids
+    obtain ⟨hnotin, hids'⟩ := List.nodup_cons.1 hids
+    have hsrc := (h.qFresh id (Or.inl hidK)).1
+    have hnp := (h.qFresh id (Or.inl hidK)).2
+    have hpend := h.pending_of_fresh hsrc (Or.inl (Or.inl hidK))
+    have hndK : K.Nodup := (List.nodup_append.1 hnd).1
+    have hdisj : ∀ x, x ∈ K → x ∉ S := by
+      intro x hx hs
+      exact (List.nodup_append.1 hnd).2.2 x hx x hs rfl
+    have h1 : KInv (ks.produce id res) (chan ++ [(id, res)])
+        (fun x => x ∈ K.filter (fun y => y != id) ∨ x ∈ S) pool := by
+      refine h.produceChan res hsrc ?_ ?_ h.poolNodup hpend
+      · intro x hx
+        rcases hx with hx | hx
+        · have := List.mem_filter.1 hx
+          exact ⟨Or.inl this.1, by simpa using this.2⟩
+        · exact ⟨Or.inr hx, fun e => hdisj id hidK (e ▸ hx)⟩
+      · intro x hx
+        exact ⟨hx, fun e => hnp (e ▸ hx)⟩
+    have h2 := ih (ks.produce id res) (K.filter (fun y => y != id)) (chan ++ [(id, res)]) h1
+      (by
+        refine List.Sublist.nodup ?_ hnd
+        exact List.Sublist.append (List.filter_sublist) (List.Sublist.refl _))
+      (by
+        intro q hq
+        have hqK := hmem q (List.mem_cons_of_mem _ hq)
+        refine List.mem_filter.2 ⟨hqK, ?_⟩
+        have : q.1 ≠ id := fun e => hnotin (e ▸ List.mem_map.2 ⟨q, hq, rfl⟩)
+        simpa using this)
+      hids'
+    have hchan : chan ++ [(id, res)] ++ rest = chan ++ (id, res) :: rest := by simp
+    rw [hchan] at h2
+    refine h2.congrQueued ?_
+    intro x
+    simp only [List.map_cons, List.mem_filter, List.contains_cons, Bool.not_or, Bool.and_eq_true,
+      Bool.not_eq_true', bne_iff_ne, ne_eq]
+    constructor
+    · rintro (⟨hx, h3, h4⟩ | hx)
+      · left
+        refine ⟨⟨hx, ?_⟩, h4⟩
+        intro e; rw [e] at h3; simp at h3
+      · exact Or.inr hx
+    · rintro (⟨⟨hx, h3⟩, h4⟩ | hx)
+      · left
+        refine ⟨hx, ?_, h4⟩
+        cases hb : (x == id) with
+        | false => rfl
+        | true => exact (h3 (by simpa using hb)).elim
+      · exact Or.inr hx
+
+theorem foldl_produce_posted : ∀ (posted : List Cqe) (ks : Keys),
+    posted.foldl (fun ks c => match c.ud with
+        | .key id => if c.more then ks else ks.produce id c.res
+        | _ => ks) ks =
+      (cqFinals posted).foldl (fun ks p => ks.produce p.1 p.2) ks := by
+  intro posted
+  induction posted with
+  | nil => intro ks; rfl
+  | cons c rest ih =>
+    intro ks
+    simp only [List.foldl_cons]
+    rw [ih]
+    cases hud : c.ud with
+    | cancel => simp [cqFinals, hud]
+    | notify => simp [cqFinals, hud]
+    | key id =>
+      by_cases hm : c.more
+      · simp [cqFinals, hud, hm]
+      · simp [cqFinals, hud, hm]
+
+theorem mem_cqFinals {cq : List Cqe} {id : Id} {res : Res} (h : (id, res) ∈ cqFinals cq) :
+    ∃ c ∈ cq, c.ud = .key id ∧ c.more = false ∧ c.res = res := by
+  unfold cqFinals at h
+  obtain ⟨c, hc, hv⟩ := List.mem_filterMap.1 h
+  cases hud : c.ud with
+  | cancel => simp [hud] at hv
+  | notify => simp [hud] at hv
+  | key id' =>
+    by_cases hm : c.more
+    · simp [hud, hm] at hv
+    · simp only [hud, hm, Bool.false_eq_true, if_false, Option.some.injEq, Prod.mk.injEq] at hv
+      obtain ⟨rfl, rfl⟩ := hv
+      exact ⟨c, hc, hud, by simpa using hm, rfl⟩
+
+/-- one `io_uring_enter` (or an asynchronous post) that honours the contract keeps the invariant -/
+theorem RInv.enter {r : Ring} (h : RInv r) (e : Enter) (hok : EnterOk r e) : RInv (r.enter e) := by
+  have hsplit : opsOf r.sq = opsOf (r.sq.take e.taken) ++ opsOf (r.sq.drop e.taken) := by
+    rw [← opsOf_append, List.take_append_drop]
+  have hnd1 : ((r.kern ++ opsOf (r.sq.take e.taken)) ++ opsOf (r.sq.drop e.taken)).Nodup := by
+    have := h.nod; rw [hsplit, ← List.append_assoc] at this; exact this
+  have hk0 : KInv r.keys (cqFinals r.cq ++ r.chan)
+      (fun id => id ∈ r.kern ++ opsOf (r.sq.take e.taken) ∨ id ∈ opsOf (r.sq.drop e.taken)) r.pool := by
+    refine h.k.congrQueued ?_
+    intro id
+    unfold Ring.owed
+    rw [hsplit]
+    simp only [List.mem_append]
+    constructor
+    · rintro ((a | b) | c)
+      · exact Or.inl a
+      · exact Or.inr (Or.inl b)
+      · exact Or.inr (Or.inr c)
+    · rintro (a | b | c)
+      · exact Or.inl (Or.inl a)
+      · exact Or.inl (Or.inr b)
+      · exact Or.inr c
+  have hmemK : ∀ p ∈ cqFinals e.posted, p.1 ∈ r.kern ++ opsOf (r.sq.take e.taken) := by
+    intro p hp
+    obtain ⟨c, hc, hud, _, _⟩ := mem_cqFinals (id := p.1) (res := p.2) (by simpa using hp)
+    exact hok.owned c hc p.1 hud
+  have hk1 := kinv_post_finals (cqFinals e.posted) r.keys _ _ hk0 hnd1 hmemK hok.oneFinal
+  -- the fields of `enter`
+  have ekern : (r.enter e).kern = (r.kern ++ opsOf (r.sq.take e.taken)).filter
+      (fun x => !((cqFinals e.posted).map (·.1)).contains x) := by
+    simp only [Ring.enter, opsOf]
+    congr 1
+    funext x
+    congr 2
+    simp only [cqFinals, List.map_filterMap]
+    congr 1
+    funext c
+    cases c.ud with
+    | cancel => rfl
+    | notify => rfl
+    | key id => by_cases hm : c.more <;> simp [hm]
+  have ekeys : (r.enter e).keys = (cqFinals e.posted).foldl (fun ks p => ks.produce p.1 p.2) r.keys := by
+    simp only [Ring.enter]; exact foldl_produce_posted _ _
+  have esq : (r.enter e).sq = r.sq.drop e.taken := rfl
+  have ecq : (r.enter e).cq = r.cq ++ e.posted := rfl
+  refine ⟨?_, ?_, ?_⟩
+  · show KInv (r.enter e).keys (cqFinals (r.enter e).cq ++ (r.enter e).chan) (r.enter e).owed (r.enter e).pool
+    rw [ekeys, ecq, cqFinals_append]
+    have : (r.enter e).chan = r.chan := rfl
+    rw [this]
+    have : (r.enter e).pool = r.pool := rfl
+    rw [this]
+    have hk2 : KInv _ (cqFinals r.cq ++ cqFinals e.posted ++ r.chan) _ r.pool := hk1.chanSwap
+    refine hk2.congrQueued ?_
+    intro id
+    unfold Ring.owed
+    rw [ekern, esq]
+  · rw [ekern, esq]
+    refine List.Sublist.nodup ?_ hnd1
+    exact List.Sublist.append (List.filter_sublist) (List.Sublist.refl _)
+  · intro c hc id hud
+    rw [ecq] at hc
+    rw [ecq, cqFinals_append, List.map_append]
+    unfold Ring.owed
+    rw [ekern, esq]
+    have key : ∀ x, x ∈ r.kern ++ opsOf (r.sq.take e.taken) →
+        (x ∈ (r.kern ++ opsOf (r.sq.take e.taken)).filter (fun y => !((cqFinals e.posted).map (·.1)).contains y)
+          ∨ x ∈ opsOf (r.sq.drop e.taken)) ∨
+        x ∈ (cqFinals r.cq).map (·.1) ++ (cqFinals e.posted).map (·.1) := by
+      intro x hx
+      by_cases hf : x ∈ (cqFinals e.posted).map (·.1)
+      · exact Or.inr (List.mem_append.2 (Or.inr hf))
+      · left; left
+        exact List.mem_filter.2 ⟨hx, by simpa using hf⟩
+    rcases List.mem_append.1 hc with hc | hc
+    · rcases h.cqLive c hc id hud with ho | hf
+      · unfold Ring.owed at ho
+        rw [hsplit] at ho
+        rcases ho with ho | ho
+        · exact key id (List.mem_append.2 (Or.inl ho))
+        · rcases List.mem_append.1 ho with ho | ho
+          · exact key id (List.mem_append.2 (Or.inr ho))
+          · exact Or.inl (Or.inr ho)
+      · exact Or.inr (List.mem_append.2 (Or.inl hf))
+    · exact key id (hok.owned c hc id hud)
+
+
+/-! #### `poll_entries`, `poll_blocking` -/
+
+theorem pushMulti_fields (ks : Keys) (id : Id) (r : Res) :
+    (ks.pushMulti id r).slot = ks.slot ∧ (ks.pushMulti id r).src = ks.src ∧ (ks.pushMulti id r).fin = ks.fin ∧
+    (ks.pushMulti id r).dlv = ks.dlv ∧ (ks.pushMulti id r).woken = ks.woken ∧
+    (ks.pushMulti id r).uaf = (ks.uaf || (ks.slot id == .free)) ∧
+    (∀ w ∈ (ks.pushMulti id r).wakeLog, w.final = true → w ∈ ks.wakeLog) := by
+  unfold Keys.pushMulti
+  split
+  · refine ⟨rfl, rfl, rfl, rfl, rfl, rfl, ?_⟩
+    intro w hw hf
+    simp only [Keys.wake, List.mem_append, List.mem_singleton] at hw
+    rcases hw with hw | rfl
+    · exact hw
+    · simp at hf
+  · exact ⟨rfl, rfl, rfl, rfl, rfl, rfl, fun w hw _ => hw⟩
+
+theorem KInv.pushMulti {ks : Keys} {chan : List (Id × Res)} {queued : Id → Prop} {pool : List Id}
+    (h : KInv ks chan queued pool) (id : Id) (r : Res) (hlive : ks.slot id ≠ .free) :
+    KInv (ks.pushMulti id r) chan queued pool := by
+  obtain ⟨e1, e2, e3, e4, e5, e6, e7⟩ := pushMulti_fields ks id r
+  refine ⟨by rw [e2]; exact h.srcLen, by rw [e2]; exact h.qFresh, by rw [e2]; exact h.poolFresh, h.poolNodup,
+    by rw [e2, e3]; exact h.link, ?_, ?_, by rw [e3, e5]; exact h.wokenLe, ?_⟩
+  · intro x
+    have := h.slotRel x
+    unfold SlotRel at this ⊢
+    rw [e1, e2, e3, e4]; exact this
+  · rw [e6, h.noUaf]
+    cases hs : ks.slot id <;> simp_all
+  · intro w hw hf
+    exact h.wakeReady w (e7 w hw hf) hf
+
+theorem handleCqe_frame (r : Ring) (c : Cqe) :
+    (r.handleCqe c).kern = r.kern ∧ (r.handleCqe c).sq = r.sq ∧ (r.handleCqe c).chan = r.chan ∧
+    (r.handleCqe c).pool = r.pool ∧ (r.handleCqe c).cq = r.cq ∧ (r.handleCqe c).sqCap = r.sqCap := by
+  unfold Ring.handleCqe
+  cases c.ud with
+  | cancel => simp
+  | notify => by_cases h : c.more <;> simp [h]
+  | key id => by_cases h : c.more <;> simp [h]
+
+/-- the loop of `poll_entries` over the queued completions -/
+theorem rinv_foldl_handleCqe : ∀ (rest : List Cqe) (acc : Ring), acc.cq = [] →
+    KInv acc.keys (cqFinals rest ++ acc.chan) acc.owed acc.pool → (acc.kern ++ opsOf acc.sq).Nodup →
+    (∀ c ∈ rest, ∀ id, c.ud = .key id → acc.keys.slot id ≠ .free) →
+    RInv (rest.foldl Ring.handleCqe acc) := by
+  intro rest
+  induction rest with
+  | nil =>
+    intro acc hcq hk hnd _
+    simp only [List.foldl_nil]
+    refine ⟨by simpa [hcq, cqFinals] using hk, hnd, by intro c hc; rw [hcq] at hc; cases hc⟩
+  | cons c rest ih =>
+    intro acc hcq hk hnd hlive
+    simp only [List.foldl_cons]
+    obtain ⟨f1, f2, f3, f4, f5, _⟩ := handleCqe_frame acc c
+    have howed : (acc.handleCqe c).owed = acc.owed := by
+      funext id; unfold Ring.owed; rw [f1, f2]
+    apply ih
+    · rw [f5]; exact hcq
+    · rw [howed, f3, f4]
+      cases hud : c.ud with
+      | cancel =>
+        have : cqFinals (c :: rest) = cqFinals rest := by simp [cqFinals, hud]
+        rw [this] at hk
+        simpa [Ring.handleCqe, hud] using hk
+      | notify =>
+        have : cqFinals (c :: rest) = cqFinals rest := by simp [cqFinals, hud]
+        rw [this] at hk
+        by_cases hm : c.more <;> simpa [Ring.handleCqe, hud, hm] using hk
+      | key id =>
+        by_cases hm : c.more
+        · have : cqFinals (c :: rest) = cqFinals rest := by simp [cqFinals, hud, hm]
+          rw [this] at hk
+          have hl := hlive c List.mem_cons_self id hud
+          simpa [Ring.handleCqe, hud, hm] using hk.pushMulti id c.res hl
+        · have : cqFinals (c :: rest) = (id, c.res) :: cqFinals rest := by simp [cqFinals, hud, hm]
+          rw [this] at hk
+          have := KInv.notifyHead (by simpa using hk)
+          simpa [Ring.handleCqe, hud, hm] using this
+    · rw [f1, f2]; exact hnd
+    · intro c' hc' id' hud'
+      have hl := hlive c' (List.mem_cons_of_mem _ hc') id' hud'
+      intro hfree
+      apply hl
+      cases hud : c.ud with
+      | cancel => simpa [Ring.handleCqe, hud] using hfree
+      | notify => by_cases hm : c.more <;> simpa [Ring.handleCqe, hud, hm] using hfree
+      | key id =>
+        by_cases hm : c.more
+        · simp only [Ring.handleCqe, hud, hm, if_true] at hfree
+          rw [(pushMulti_fields _ _ _).1] at hfree; exact hfree
+        · simp only [Ring.handleCqe, hud, hm, Bool.false_eq_true, if_false] at hfree
+          exact notify_slot_free _ _ _ _ hfree
+
+theorem RInv.slot_live {r : Ring} (h : RInv r) (c : Cqe) (hc : c ∈ r.cq) (id : Id) (hud : c.ud = .key id) :
+    r.keys.slot id ≠ .free := by
+  rcases h.cqLive c hc id hud with ho | hf
+  · have hs := (h.k.qFresh id ho).1
+    obtain ⟨w, hw⟩ := h.k.pending_of_fresh hs (Or.inl ho)
+    rw [hw]; simp
+  · obtain ⟨p, hp, rfl⟩ := List.mem_map.1 hf
+    obtain ⟨w, hw⟩ := h.k.pending_of_mem (id := p.1) (r := p.2) (List.mem_append.2 (Or.inl hp))
+    rw [hw]; simp
+
+theorem RInv.pollEntries {r : Ring} (h : RInv r) : RInv r.pollEntries := by
+  unfold Ring.pollEntries
+  exact rinv_foldl_handleCqe r.cq { r with cq := [] } rfl h.k h.nod (fun c hc id hud => h.slot_live c hc id hud)
+
+theorem pollBlocking_eq (r : Ring) :
+    r.pollBlocking = ({ r with chan := [], keys := notifyAll r.keys r.chan }, !r.chan.isEmpty) := by
+  unfold Ring.pollBlocking notifyAll
+  have : ∀ (chan : List (Id × Res)) (acc : Ring),
+      chan.foldl (fun (acc : Ring) (e : Id × Res) => { acc with keys := acc.keys.notify e.1 e.2 }) acc =
+        { acc with keys := chan.foldl (fun ks e => ks.notify e.1 e.2) acc.keys } := by
+    intro chan
+    induction chan with
+    | nil => intro acc; rfl
+    | cons e rest ih => intro acc; simp only [List.foldl_cons]; rw [ih]
+  rw [this]
+
+theorem RInv.pollBlocking {r : Ring} (h : RInv r) : RInv r.pollBlocking.1 := by
+  rw [pollBlocking_eq]
+  refine ⟨?_, h.nod, h.cqLive⟩
+  show KInv (notifyAll r.keys r.chan) (cqFinals r.cq ++ []) r.owed r.pool
+  have h1 : KInv r.keys ([] ++ r.chan ++ cqFinals r.cq) r.owed r.pool := by
+    have : KInv r.keys ([] ++ cqFinals r.cq ++ r.chan) r.owed r.pool := by simpa using h.k
+    exact this.chanSwap
+  simpa using kinv_notifyAll_prefix r.chan r.keys (by simpa using h1)
+
+theorem RInv.setDrained {r : Ring} (h : RInv r) (d : List Cqe) : RInv { r with drained := d } :=
+  ⟨h.k, h.nod, h.cqLive⟩
+
+theorem RInv.setNotifier {r : Ring} (h : RInv r) (b : Bool) : RInv { r with needNotifier := b } :=
+  ⟨h.k, h.nod, h.cqLive⟩
+
+theorem RInv.setInflight {r : Ring} (h : RInv r) (l : List Id) : RInv { r with inflight := l } :=
+  ⟨h.k, h.nod, h.cqLive⟩
+
+theorem RInv.overflowRound {r : Ring} (h : RInv r) (en : Enter) (hok : EnterOk r en) :
+    RInv (overflowRound r en) := by
+  unfold Completion.overflowRound
+  exact ((h.enter en hok).pollEntries).setDrained _
+
+/-! #### an operation nobody knows yet stays untouched by the kernel side -/
+
+/-- no result produced, nothing owed, not in the pool -/
+def Untouched (r : Ring) (id : Id) : Prop := r.keys.src id = [] ∧ ¬ r.owed id ∧ id ∉ r.pool
+
+theorem enter_slot (r : Ring) (e : Enter) : (r.enter e).keys.slot = r.keys.slot := by
+  unfold Ring.enter
+  simp only
+  have : ∀ (l : List Cqe) (ks : Keys),
+      (l.foldl (fun ks c => match c.ud with
+          | .key id => if c.more then ks else ks.produce id c.res
+          | _ => ks) ks).slot = ks.slot := by
+    intro l
+    induction l with
+    | nil => intro ks; rfl
+    | cons c rest ih =>
+      intro ks
+      simp only [List.foldl_cons]
+      rw [ih]
+      cases c.ud with
+      | key id => by_cases hm : c.more <;> simp [hm]
+      | cancel => rfl
+      | notify => rfl
+  exact this _ _
+
+theorem foldl_produce_src_other : ∀ (finals : List (Id × Res)) (ks : Keys) (id : Id),
+    id ∉ finals.map (·.1) → (finals.foldl (fun ks p => ks.produce p.1 p.2) ks).src id = ks.src id := by
+  intro finals
+  induction finals with
+  | nil => intro ks id _; rfl
+  | cons p rest ih =>
+    intro ks id hn
+    simp only [List.map_cons, List.mem_cons, not_or] at hn
+    simp only [List.foldl_cons]
+    rw [ih _ id hn.2]
+    simp [hn.1]
+
+theorem Untouched.enter {r : Ring} (hr : RInv r) {id : Id} (h : Untouched r id) (e : Enter) (hok : EnterOk r e) :
+    Untouched (r.enter e) id := by
+  obtain ⟨hs, ho, hp⟩ := h
+  have hsplit : opsOf r.sq = opsOf (r.sq.take e.taken) ++ opsOf (r.sq.drop e.taken) := by
+    rw [← opsOf_append, List.take_append_drop]
+  have hnotK : id ∉ r.kern ++ opsOf (r.sq.take e.taken) := by
+    intro hm
+    apply ho
+    unfold Ring.owed
+    rw [hsplit]
+    rcases List.mem_append.1 hm with hm | hm
+    · exact Or.inl hm
+    · exact Or.inr (List.mem_append.2 (Or.inl hm))
+  refine ⟨?_, ?_, hp⟩
+  · have : (r.enter e).keys = (cqFinals e.posted).foldl (fun ks p => ks.produce p.1 p.2) r.keys := by
+      simp only [Ring.enter]; exact foldl_produce_posted _ _
+    rw [this, foldl_produce_src_other _ _ id ?_]
+    · exact hs
+    · intro hm
+      obtain ⟨p, hp', rfl⟩ := List.mem_map.1 hm
+      obtain ⟨c, hc, hud, _, _⟩ := mem_cqFinals (id := p.1) (res := p.2) (by simpa using hp')
+      exact hnotK (hok.owned c hc p.1 hud)
+  · intro ho'
+    apply ho
+    unfold Ring.owed at ho' ⊢
+    rw [hsplit]
+    rcases ho' with hk | hq
+    · have hk' : id ∈ (r.kern ++ opsOf (r.sq.take e.taken)) := by
+        simp only [Ring.enter, opsOf] at hk
+        exact (List.mem_filter.1 hk).1
+      exact (hnotK hk').elim
+    · exact Or.inr (List.mem_append.2 (Or.inr hq))
+
+theorem foldl_handleCqe_frame : ∀ (cq : List Cqe) (acc : Ring),
+    (cq.foldl Ring.handleCqe acc).kern = acc.kern ∧ (cq.foldl Ring.handleCqe acc).sq = acc.sq ∧
+    (cq.foldl Ring.handleCqe acc).pool = acc.pool ∧ (cq.foldl Ring.handleCqe acc).keys.src = acc.keys.src := by
+  intro cq
+  induction cq with
+  | nil => intro acc; exact ⟨rfl, rfl, rfl, rfl⟩
+  | cons c rest ih =>
+    intro acc
+    simp only [List.foldl_cons]
+    obtain ⟨a, b, c', d⟩ := ih (acc.handleCqe c)
+    obtain ⟨f1, f2, _, f4, _, _⟩ := handleCqe_frame acc c
+    refine ⟨a.trans f1, b.trans f2, c'.trans f4, d.trans ?_⟩
+    unfold Ring.handleCqe
+    cases c.ud with
+    | cancel => rfl
+    | notify => by_cases hm : c.more <;> simp [hm]
+    | key id =>
+      by_cases hm : c.more
+      · simp [hm, (pushMulti_fields _ _ _).2.1]
+      · simp [hm, notify_src]
+
+theorem foldl_handleCqe_slot_other : ∀ (cq : List Cqe) (acc : Ring) (id : Id),
+    id ∉ (cqFinals cq).map (·.1) → (cq.foldl Ring.handleCqe acc).keys.slot id = acc.keys.slot id := by
+  intro cq
+  induction cq with
+  | nil => intro acc id _; rfl
+  | cons c rest ih =>
+    intro acc id hn
+    simp only [List.foldl_cons]
+    cases hud : c.ud with
+    | cancel =>
+      have : cqFinals (c :: rest) = cqFinals rest := by simp [cqFinals, hud]
+      rw [this] at hn
+      rw [ih _ id hn]; simp [Ring.handleCqe, hud]
+    | notify =>
+      have : cqFinals (c :: rest) = cqFinals rest := by simp [cqFinals, hud]
+      rw [this] at hn
+      rw [ih _ id hn]; by_cases hm : c.more <;> simp [Ring.handleCqe, hud, hm]
+    | key id' =>
+      by_cases hm : c.more
+      · have : cqFinals (c :: rest) = cqFinals rest := by simp [cqFinals, hud, hm]
+        rw [this] at hn
+        rw [ih _ id hn]; simp [Ring.handleCqe, hud, hm, (pushMulti_fields _ _ _).1]
+      · have : cqFinals (c :: rest) = (id', c.res) :: cqFinals rest := by simp [cqFinals, hud, hm]
+        rw [this] at hn
+        simp only [List.map_cons, List.mem_cons, not_or] at hn
+        rw [ih _ id hn.2]
+        simp only [Ring.handleCqe, hud, hm, Bool.false_eq_true, if_false]
+        exact (notify_frame _ id' c.res id hn.1).1
+
+theorem Untouched.not_in_cq {r : Ring} (hr : RInv r) {id : Id} (h : Untouched r id) :
+    id ∉ (cqFinals r.cq).map (·.1) := by
+  intro hm
+  obtain ⟨p, hp, rfl⟩ := List.mem_map.1 hm
+  have := chanRes_ne_nil_of_mem (chan := cqFinals r.cq ++ r.chan) (id := p.1) (r := p.2)
+    (List.mem_append.2 (Or.inl hp))
+  exact this (hr.k.fin_of_src_nil h.1).2
+
+theorem Untouched.overflowRound {r : Ring} (hr : RInv r) {id : Id} (h : Untouched r id) (en : Enter)
+    (hok : EnterOk r en) :
+    Untouched (overflowRound r en) id ∧ (overflowRound r en).keys.slot id = r.keys.slot id := by
+  have h1 := h.enter hr en hok
+  have hr1 := hr.enter en hok
+  unfold Completion.overflowRound Ring.pollEntries
+  obtain ⟨a, b, c, d⟩ := foldl_handleCqe_frame (r.enter en).cq { r.enter en with cq := [] }
+  refine ⟨⟨?_, ?_, ?_⟩, ?_⟩
+  · show (List.foldl Ring.handleCqe _ _).keys.src id = []
+    rw [d]; exact h1.1
+  · intro ho
+    apply h1.2.1
+    unfold Ring.owed at ho ⊢
+    simp only at ho
+    rw [a, b] at ho
+    exact ho
+  · show id ∉ (List.foldl Ring.handleCqe _ _).pool
+    rw [c]; exact h1.2.2
+  · show (List.foldl Ring.handleCqe _ _).keys.slot id = r.keys.slot id
+    rw [foldl_handleCqe_slot_other _ _ id (h1.not_in_cq hr1)]
+    show (r.enter en).keys.slot id = r.keys.slot id
+    rw [enter_slot]
+
+/-- the kernel scripts of the overflow loop honour the contract at the state they are used in -/
+def ScriptOk : Ring → List Enter → Prop
+  | _, [] => True
+  | r, en :: rest => EnterOk r en ∧ ScriptOk (Completion.overflowRound r en) rest
+
+/-- the overflow loop: the ring it leaves behind (before staging the entry) is consistent, and an
+    operation nobody knows yet is still untouched -/
+theorem rinv_pushRawAux (e : Sqe) : ∀ (script : List Enter) (r : Ring), RInv r → ScriptOk r script →
+    ∃ r0, RInv r0 ∧
+      ((pushRawAux e script r) = ({ r0 with sq := r0.sq ++ [e] }, .ok) ∨ (pushRawAux e script r) = (r0, .spin)) ∧
+      (∀ id, Untouched r id → Untouched r0 id ∧ r0.keys.slot id = r.keys.slot id) := by
+  intro script
+  induction script with
+  | nil =>
+    intro r h _
+    refine ⟨r, h, ?_, fun id hu => ⟨hu, rfl⟩⟩
+    unfold pushRawAux
+    by_cases hlt : r.sq.length < r.sqCap
+    · left; simp [hlt]
+    · right; simp [hlt]
+  | cons en rest ih =>
+    intro r h hs
+    rw [pushRawAux_cons]
+    by_cases hlt : r.sq.length < r.sqCap
+    · exact ⟨r, h, Or.inl (by simp [hlt]), fun id hu => ⟨hu, rfl⟩⟩
+    · simp only [hlt, if_false]
+      obtain ⟨hok, hrest⟩ := hs
+      obtain ⟨r0, h0, hres, hunt⟩ := ih _ (h.overflowRound en hok) hrest
+      refine ⟨r0, h0, hres, ?_⟩
+      intro id hu
+      obtain ⟨hu1, hs1⟩ := hu.overflowRound h en hok
+      obtain ⟨hu2, hs2⟩ := hunt id hu1
+      exact ⟨hu2, hs2.trans hs1⟩
+
+
+/-! #### every step of the io_uring driver -/
+
+/-- a key that has just been allocated: nothing is known about it anywhere -/
+def Fresh (r : Ring) (id : Id) : Prop :=
+  r.keys.slot id = .free ∧ r.keys.src id = [] ∧ ¬ r.owed id ∧ id ∉ r.pool
+
+theorem RInv.alloc {r : Ring} (h : RInv r) {id : Id} (hf : Fresh r id) :
+    RInv { r with keys := r.keys.alloc id } ∧ Untouched { r with keys := r.keys.alloc id } id := by
+  refine ⟨⟨h.k.alloc hf.1 hf.2.1, h.nod, h.cqLive⟩, ?_, hf.2.2.1, hf.2.2.2⟩
+  simpa using hf.2.1
+
+/-- staging an SQE that is not an operation (notifier, cancel) changes nothing that matters -/
+theorem RInv.stageOther {r : Ring} (h : RInv r) (e : Sqe) (he : ∀ id, e ≠ .op id) :
+    RInv { r with sq := r.sq ++ [e] } := by
+  have hops : opsOf (r.sq ++ [e]) = opsOf r.sq := by
+    rw [opsOf_append]
+    cases e with
+    | op id => exact (he id rfl).elim
+    | cancelOf id => simp [opsOf]
+    | notifier => simp [opsOf]
+  have howed : Ring.owed { r with sq := r.sq ++ [e] } = r.owed := by
+    funext id; unfold Ring.owed; simp only; rw [hops]
+  refine ⟨?_, ?_, ?_⟩
+  · show KInv r.keys (cqFinals r.cq ++ r.chan) (Ring.owed { r with sq := r.sq ++ [e] }) r.pool
+    rw [howed]; exact h.k
+  · show (r.kern ++ opsOf (r.sq ++ [e])).Nodup
+    rw [hops]; exact h.nod
+  · intro c hc id hud
+    rw [howed]; exact h.cqLive c hc id hud
+
+/-- staging the SQE of an untouched, pending operation -/
+theorem RInv.stageOp {r : Ring} (h : RInv r) {id : Id} (hu : Untouched r id) (hp : ∃ w, r.keys.slot id = .pending w) :
+    RInv { r with sq := r.sq ++ [.op id] } := by
+  have hops : opsOf (r.sq ++ [.op id]) = opsOf r.sq ++ [id] := by rw [opsOf_append]; simp [opsOf]
+  have howed : ∀ x, Ring.owed { r with sq := r.sq ++ [.op id] } x ↔ r.owed x ∨ x = id := by
+    intro x; unfold Ring.owed; simp only; rw [hops]
+    simp only [List.mem_append, List.mem_singleton]
+    constructor
+    · rintro (a | b | c)
+      · exact Or.inl (Or.inl a)
+      · exact Or.inl (Or.inr b)
+      · exact Or.inr c
+    · rintro ((a | b) | c)
+      · exact Or.inl a
+      · exact Or.inr (Or.inl b)
+      · exact Or.inr (Or.inr c)
+  refine ⟨?_, ?_, ?_⟩
+  · show KInv r.keys (cqFinals r.cq ++ r.chan) (Ring.owed { r with sq := r.sq ++ [.op id] }) r.pool
+    refine h.k.requeue ?_ ?_
+    · intro x hx
+      rcases (howed x).1 hx with hx | rfl
+      · exact Or.inl hx
+      · exact Or.inr ⟨hu.1, hu.2.2, hp⟩
+    · intro x hfree hx
+      rcases (howed x).1 hx with hx | rfl
+      · exact hx
+      · obtain ⟨w, hw⟩ := hp; rw [hw] at hfree; cases hfree
+  · show (r.kern ++ opsOf (r.sq ++ [.op id])).Nodup
+    rw [hops, ← List.append_assoc]
+    refine List.nodup_append.2 ⟨h.nod, by simp, ?_⟩
+    intro a ha b hb
+    simp only [List.mem_singleton] at hb
+    subst hb
+    intro e
+    subst e
+    apply hu.2.1
+    unfold Ring.owed
+    exact List.mem_append.1 ha
+  · intro c hc x hud
+    rcases h.cqLive c hc x hud with ho | hf
+    · exact Or.inl ((howed x).2 (Or.inl ho))
+    · exact Or.inr hf
+
+theorem RInv.pushOp {r : Ring} (h : RInv r) {id : Id} (hf : Fresh r id) (script : List Enter)
+    (hs : ScriptOk { r with keys := r.keys.alloc id } script) : RInv (r.pushOp id script).1 := by
+  obtain ⟨h0, hu0⟩ := h.alloc hf
+  obtain ⟨r0, hr0, hres, hunt⟩ := rinv_pushRawAux (.op id) script _ h0 hs
+  obtain ⟨hu1, hs1⟩ := hunt id hu0
+  have hp : ∃ w, r0.keys.slot id = .pending w := ⟨none, by rw [hs1]; simp⟩
+  unfold Ring.pushOp Ring.pushRaw
+  simp only
+  rcases hres with hres | hres
+  · rw [hres]
+    exact (hr0.stageOp hu1 hp).setInflight _
+  · rw [hres]; exact hr0
+
+theorem RInv.pushBlocking {r : Ring} (h : RInv r) {id : Id} (hf : Fresh r id) : RInv (r.pushBlocking id) := by
+  obtain ⟨h0, hu0⟩ := h.alloc hf
+  refine ⟨?_, h.nod, h.cqLive⟩
+  show KInv (r.keys.alloc id) (cqFinals r.cq ++ r.chan) r.owed (id :: r.pool)
+  exact h0.k.poolAdd hu0.1 hu0.2.1 hu0.2.2 ⟨none, by simp⟩
+
+theorem RInv.jobDone {r : Ring} (h : RInv r) (id : Id) (res : Res) (hp : id ∈ r.pool) : RInv (r.jobDone id res) := by
+  have hsrc := h.k.poolFresh id hp
+  have hpend := h.k.pending_of_fresh hsrc (Or.inr hp)
+  refine ⟨?_, h.nod, h.cqLive⟩
+  show KInv (r.keys.produce id res) (cqFinals r.cq ++ (r.chan ++ [(id, res)])) r.owed (r.pool.erase id)
+  rw [← List.append_assoc]
+  refine h.k.produceChan res hsrc ?_ ?_ (h.k.poolNodup.erase id) hpend
+  · intro x hx
+    refine ⟨hx, ?_⟩
+    rintro rfl
+    exact (h.k.qFresh x hx).2 hp
+  · intro x hx
+    exact ⟨List.mem_of_mem_erase hx, fun e => by subst e; exact (h.k.poolNodup.mem_erase_iff.1 hx).1 rfl⟩
+
+theorem RInv.pop {r : Ring} (h : RInv r) (id : Id) : RInv { r with keys := (r.keys.pop id).1 } :=
+  ⟨h.k.pop id, h.nod, h.cqLive⟩
+
+theorem RInv.setWaker {r : Ring} (h : RInv r) (id : Id) (w : WakerId) : RInv { r with keys := r.keys.setWaker id w } :=
+  ⟨h.k.setWaker id w, h.nod, h.cqLive⟩
+
+theorem RInv.cancel {r : Ring} (h : RInv r) (id : Id) : RInv (r.cancel id) := by
+  unfold Ring.cancel
+  by_cases hlt : r.sq.length < r.sqCap
+  · simp only [hlt, if_true]; exact h.stageOther _ (by intro x; simp)
+  · simp only [hlt, if_false]; exact h
+
+/-- the kernel contract for the enters of one `Driver::poll` -/
+def PollOk (r : Ring) (script : List Enter) (last : Enter) : Prop :=
+  if r.chan.isEmpty then
+    (if r.pollBlocking.1.needNotifier then
+      ScriptOk r.pollBlocking.1 script ∧
+        (∀ r2, (r.pollBlocking.1.pushRaw .notifier script) = (r2, .ok) →
+            EnterOk { r2 with needNotifier := false } last)
+     else EnterOk r.pollBlocking.1 last)
+  else True
+
+theorem RInv.poll {r : Ring} (h : RInv r) (script : List Enter) (last : Enter) (hok : PollOk r script last) :
+    RInv (r.poll script last).1 := by
+  have hb := h.pollBlocking
+  have hbv : r.pollBlocking.2 = !r.chan.isEmpty := by rw [pollBlocking_eq]
+  unfold Ring.poll
+  unfold PollOk at hok
+  cases hpb : r.pollBlocking with
+  | mk r1 b =>
+    rw [hpb] at hb hbv hok
+    simp only at hb hbv hok ⊢
+    subst hbv
+    cases hc : r.chan.isEmpty with
+    | false => simp only [Bool.not_false]; exact hb
+    | true =>
+      simp only [hc, Bool.not_true, if_true] at hok ⊢
+      cases hn : r1.needNotifier with
+      | false =>
+        simp only [hn, Bool.false_eq_true, if_false] at hok ⊢
+        exact (hb.enter last hok).pollEntries
+      | true =>
+        simp only [hn, if_true] at hok ⊢
+        obtain ⟨hs, hlast⟩ := hok
+        obtain ⟨r0, hr0, hres, _⟩ := rinv_pushRawAux .notifier script _ hb hs
+        unfold Ring.pushRaw at hlast ⊢
+        rcases hres with hres | hres
+        · rw [hres]
+          simp only
+          have h2 := (hr0.stageOther .notifier (by intro x; simp)).setNotifier false
+          exact (h2.enter last (hlast _ hres)).pollEntries
+        · rw [hres]; simp only; exact hr0
+
+/-- what the environment must respect for a step (fresh keys, existing jobs, the kernel contract) -/
+def RStepOk (r : Ring) : RStep → Prop
+  | .pushOp id script => Fresh r id ∧ ScriptOk { r with keys := r.keys.alloc id } script
+  | .pushBlocking id => Fresh r id
+  | .jobDone id _ => id ∈ r.pool
+  | .poll script last => PollOk r script last
+  | .kernel posted => EnterOk r ⟨0, posted⟩
+  | _ => True
+
+theorem RInv.step {r : Ring} (h : RInv r) (e : RStep) (hok : RStepOk r e) : RInv (r.step e) := by
+  cases e with
+  | pushOp id script => exact h.pushOp hok.1 script hok.2
+  | pushBlocking id => exact h.pushBlocking hok
+  | jobDone id res => exact h.jobDone id res hok
+  | poll script last => exact h.poll script last hok
+  | kernel posted => exact h.enter _ hok
+  | pop id => exact h.pop id
+  | setWaker id w => exact h.setWaker id w
+  | cancel id => exact h.cancel id
+
+def Ring.run (r : Ring) : List RStep → Ring
+  | [] => r
+  | e :: rest => (r.step e).run rest
+
+/-- every step of the list respects the environment contract at the state it is taken in -/
+def RunOk : Ring → List RStep → Prop
+  | _, [] => True
+  | r, e :: rest => RStepOk r e ∧ RunOk (r.step e) rest
+
+theorem RInv.run : ∀ (steps : List RStep) (r : Ring), RInv r → RunOk r steps → RInv (r.run steps) := by
+  intro steps
+  induction steps with
+  | nil => intro r h _; exact h
+  | cons e rest ih => intro r h hok; exact ih _ (h.step e hok.1) hok.2
+
+theorem RInv.init (cap : Nat) : RInv { sqCap := cap } := by
+  refine ⟨?_, by simp [opsOf], by intro c hc; cases hc⟩
+  have : Ring.owed ({ sqCap := cap } : Ring) = fun _ => False := by
+    funext id; simp [Ring.owed, opsOf]
+  show KInv {} ([] ++ []) (Ring.owed { sqCap := cap }) []
+  rw [this]; exact KInv.init
+
+
+/-! ### what the invariant says about results (driver independent) -/
+
+section
+variable {ks : Keys} {chan : List (Id × Res)} {queued : Id → Prop} {pool : List Id}
+
+theorem KInv.own_result (h : KInv ks chan queued pool) {id : Id} {r : Res} (hs : ks.slot id = .ready r) :
+    ks.src id = [r] ∧ ks.fin id = [r] := by
+  have hr := h.slotRel id
+  unfold SlotRel at hr
+  rw [hs] at hr
+  have hl := h.link id
+  have hlen := h.srcLen id
+  rw [hr.1] at hl
+  refine ⟨?_, hr.1⟩
+  cases hc : chanRes chan id with
+  | nil => rw [hc] at hl; simpa using hl.symm
+  | cons a l => rw [hc] at hl; rw [← hl] at hlen; simp at hlen
+
+theorem KInv.exactly_once (h : KInv ks chan queued pool) (id : Id) :
+    (ks.fin id).length ≤ 1 ∧ (ks.dlv id).length ≤ 1 ∧ (ks.dlv id = [] ∨ ks.dlv id = ks.fin id) := by
+  have hf := h.finLen id
+  have hr := h.slotRel id
+  unfold SlotRel at hr
+  cases hs : ks.slot id with
+  | free =>
+    rw [hs] at hr
+    rcases hr with ⟨_, _, _, d, _⟩ | ⟨_, d⟩
+    · exact ⟨hf, by simp [d], Or.inl d⟩
+    · exact ⟨hf, by rw [d]; exact hf, Or.inr d⟩
+  | pending w => rw [hs] at hr; exact ⟨hf, by simp [hr.2], Or.inl hr.2⟩
+  | ready r => rw [hs] at hr; exact ⟨hf, by simp [hr.2], Or.inl hr.2⟩
+
+theorem KInv.finished_is_delivered (h : KInv ks chan queued pool) {id : Id} {r : Res}
+    (hq : chanRes chan id = []) (hdone : ks.src id = [r]) : ks.slot id = .ready r ∨ ks.dlv id = [r] := by
+  have hl := h.link id
+  rw [hq, hdone] at hl
+  simp at hl
+  have hr := h.slotRel id
+  unfold SlotRel at hr
+  cases hs : ks.slot id with
+  | free =>
+    rw [hs] at hr
+    rcases hr with ⟨a, _⟩ | ⟨_, d⟩
+    · rw [a] at hdone; cases hdone
+    · right; rw [d, hl]
+  | pending w => rw [hs] at hr; rw [hr.1] at hl; cases hl
+  | ready r' => rw [hs] at hr; rw [hr.1] at hl; simp at hl; left; rw [hl]
+
+end
+
+
 end Compio.Completion
